@@ -1146,8 +1146,27 @@ def source_cases(rnd, tier):
                 law = (lambda a0_, a1_: (lambda x: a0_ + a1_ * x))(a0, a1)
                 mw = fd.euler.nozzle(law, gamma=gam, source=srcs)
                 m0 = fd.euler.nozzle(law, gamma=gam)
+            # history of the MODEL objects: the same model instances also serve operators on a sibling mesh (same cell count,
+            # origin and length, other spacing), built before (c even) or after (c odd) the operators that are judged: an operator
+            # answers for its own mesh, whatever other operators its model was given to
+            sib = None
+            if n >= 2:
+                xf_ = np.asarray(m.xf, dtype=float)
+                xi_ = np.linspace(0.0, 1.0, n + 1)
+                faces_ = xf_[0] + (xf_[-1] - xf_[0]) * (xi_ + 0.3 * xi_ * (1.0 - xi_))
+                faces_[-1] = xf_[-1]
+                sib = fd.mesh_from_faces(faces_)
+                if hasattr(m, "length"):
+                    sib.length = m.length
+            hist = "sibling-before" if c % 2 == 0 else "sibling-after"
+            if sib is not None and hist == "sibling-before":
+                fd.modeldisc.fvm(mw, sib, fd.recon(recon), numflux=flux, bcL=bcl, bcR=bcr)
+                fd.modeldisc.fvm(m0, sib, fd.recon(recon), numflux=flux, bcL=bcl, bcR=bcr)
             dw = fd.modeldisc.fvm(mw, m, fd.recon(recon), numflux=flux, bcL=bcl, bcR=bcr)
             d0 = fd.modeldisc.fvm(m0, m, fd.recon(recon), numflux=flux, bcL=bcl, bcR=bcr)
+            if sib is not None and hist == "sibling-after":
+                fd.modeldisc.fvm(mw, sib, fd.recon(recon), numflux=flux, bcL=bcl, bcR=bcr)
+                fd.modeldisc.fvm(m0, sib, fd.recon(recon), numflux=flux, bcL=bcl, bcR=bcr)
             prim = random_prim(kind if kind != "nozzle" else "euler1d", rnd, n, mild=not rough_ok(recon, m))
             if section is not None and section[1] != 0 and np.min(section[0] + section[1] * np.asarray(m.xf)) <= 0.05:
                 continue        # the section must stay positive on the mesh
@@ -1189,7 +1208,7 @@ def source_cases(rnd, tier):
             if not np.array_equal(np.asarray(m.centers(), dtype=float), xc0):
                 args = 0                                   # the mesh centres handed to the sources were modified
             rec = dict(kind="src", diff=worst, tol=8, args=args, model=kind, flux=str(flux), recon=recon, n=n,
-                       subset=[int(b) for b in subset], shape=shape, geom=0)
+                       subset=[int(b) for b in subset], shape=shape, geom=0, history=hist)
             recs.append(rec)
             # geometric source of the nozzle alone against its definition, in exact arithmetic (linear section laws)
             if kind == "nozzle":
@@ -1214,7 +1233,7 @@ def source_cases(rnd, tier):
                             continue
                         gworst = max(gworst, core.ulps(F(float(R0[j][k])) - F(float(Re[j][k])), want[j], sc))
                 recs.append(dict(kind="src", diff=gworst, tol=2 ** 22, args=1, model="nozzle_geometric", flux=str(flux), recon=recon, n=n,
-                                 subset=[], shape="section a0=%s a1=%s" % section, geom=1))
+                                 subset=[], shape="section a0=%s a1=%s" % section, geom=1, history=hist))
         except Exception as ex:
             recs.append(O.raised_record(ex, model=kind, flux=str(flux), recon=recon, n=n, subset=[int(b) for b in subset]))
     return recs
